@@ -6,7 +6,7 @@ Open Scope N_scope.
 
 Lemma exim_export_error_unchanged : forall m ids cs src t e,
   export ids cs src = XErr e -> exim m ids cs src t = (t, Err e).
-Proof. intros. unfold exim. rewrite H. reflexivity. Qed.
+Proof. intros. unfold exim, exim_v. rewrite H. reflexivity. Qed.
 
 (* the part of the state that lives inside the import / transfer transaction *)
 Definition same_data (t t' : state) : Prop :=
@@ -86,11 +86,11 @@ Qed.
 Lemma import_refused_registry : forall m b t t' e, import_ m b t = (t', Err e) ->
   dims t' = dims t /\ dsets t' = dsets t /\ tags t' = tags t /\ calibs t' = calibs t.
 Proof.
-  intros m b t t' e. unfold import_. destruct (register b t) as [t0 oe] eqn:Er.
+  intros m b t t' e. unfold import_, import_v. destruct (register b t) as [t0 oe] eqn:Er.
   apply register_same in Er. destruct Er as (Hd & Hs & Hst & Ht & Hc).
   destruct oe.
   - intros H; inversion H; subst. auto.
-  - destruct (load m b t0) as [[t2|e2] copied].
+  - destruct (load_v true m b t0) as [[t2|e2] copied].
     + intros H; inversion H.
     + intros H; inversion H; subst. destruct m, copied; simpl; auto.
 Qed.
@@ -98,11 +98,11 @@ Qed.
 Lemma import_refused_stored : forall m b t t' e, import_ m b t = (t', Err e) ->
   stored t' = stored t \/ (m = Copy /\ stored t' = lose (bundle_ids b) (stored t)).
 Proof.
-  intros m b t t' e. unfold import_. destruct (register b t) as [t0 oe] eqn:Er.
+  intros m b t t' e. unfold import_, import_v. destruct (register b t) as [t0 oe] eqn:Er.
   apply register_same in Er. destruct Er as (Hd & Hs & Hst & Ht & Hc).
   destruct oe.
   - intros H; inversion H; subst. auto.
-  - destruct (load m b t0) as [[t2|e2] copied].
+  - destruct (load_v true m b t0) as [[t2|e2] copied].
     + intros H; inversion H.
     + intros H; inversion H; subst. destruct m, copied; simpl; auto. right. rewrite Hst. auto.
 Qed.
